@@ -215,6 +215,26 @@ def regex_and_constants(res):
                     res.violation('h01:regex:' + q, 'x ~ p is a case-insensitive regular expression search of p in x, NULL if either is NULL; !~ its negation', {'query': q}, got, want)
     from harness.h09 import check_const_truth
     check_const_truth(res)
+    # constant operands whose value is NULL but whose type is known (a division by zero, a failed cast) next to columns: what the
+    # compiler may do with constants at compile time never changes the value of the expression
+    di, ii, ei = names.index('d'), names.index('i'), names.index('e')
+    nn = lambda f: (lambda row: None if any(row[k] is None for k in f[0]) else f[1](row))
+    for q, fn in [('coalesce(1 / 0, d)', lambda r: r[di]), ('coalesce(d, 1 / 0, 2.5)', lambda r: r[di] if r[di] is not None else Decimal('2.5')),
+                  ("coalesce(int('x'), i)", lambda r: r[ii]), ('coalesce(1 / 0, 2.5 % 0, e)', lambda r: r[ei]), ('coalesce(d, e)', lambda r: r[di] if r[di] is not None else r[ei]),
+                  ('i * 0', nn(((ii,), lambda r: 0))), ('0 * d', nn(((di,), lambda r: r[di] * 0))), ('d * 0.0', nn(((di,), lambda r: r[di] * Decimal('0.0')))),
+                  ('i * 0 = 0', nn(((ii,), lambda r: True))), ('(i * 0) IS NULL', lambda r: r[ii] is None), ('i + 0', nn(((ii,), lambda r: r[ii]))), ('d - d', nn(((di,), lambda r: r[di] - r[di]))),
+                  ('NOT (i = 1)', lambda r: True if r[ii] is None else r[ii] != 1), ('NOT (d < e)', lambda r: True if r[di] is None or r[ei] is None else not (r[di] < r[ei])),
+                  ('NOT (i != 1)', lambda r: True if r[ii] is None else r[ii] == 1), ('NOT (i >= j)', lambda r: True if r[ii] is None or r[names.index('j')] is None else not (r[ii] >= r[names.index('j')]))]:
+        stmt = f'SELECT {q} FROM #t'
+        res.case(('constants-next-to-columns', stmt), {'query': stmt})
+        try:
+            got = [r[0] for r in conn.execute(stmt).fetchall()]
+        except Exception as e:  # noqa
+            res.violation('h01:constants-next-to-columns:' + q, 'the statement executes', {'query': stmt}, f'{type(e).__name__}: {e}', 'values')
+            continue
+        want = [fn(row) for row in R.ROWS]
+        if got != want:
+            res.violation('h01:constants-next-to-columns:' + q, 'cell equals the value of its target expression under BQL operator semantics (NULL-typed constants, zero factors, NOT over comparisons)', {'query': stmt}, got, want)
 
 
 def build_items(tier, seed):
